@@ -1584,3 +1584,317 @@ func constantInt(tv types.TypeAndValue) (int, bool) {
 	v, ok := constant.Int64Val(constant.ToInt(tv.Value))
 	return int(v), ok
 }
+
+// UnrollStepTables rewrites a loop over a small local table of structs whose fields are pure
+// expressions (strings, function literals, method values) — `for _, step := range steps { if err :=
+// step.run(); err != nil { return errors.Wrap(err, step.name) } }` — into one copy of the body per
+// entry, with `step.field` replaced by the entry's expression; a call of a parameterless function
+// literal whose body is a single return is replaced by the returned expression. The steps of a
+// sequence (consolidate → save → prune → …) then appear as the static calls they are.
+func UnrollStepTables(pkgs []*packages.Package, read func(string) ([]byte, error)) (map[string][]byte, []string) {
+	overlay := map[string][]byte{}
+	var notes []string
+	for _, p := range pkgs {
+		info := p.TypesInfo
+		for _, f := range p.Syntax {
+			fname := p.Fset.Position(f.Pos()).Filename
+			if strings.HasSuffix(fname, "_test.go") {
+				continue
+			}
+			var src []byte
+			var edits []edit
+			off := func(pos token.Pos) int { return p.Fset.Position(pos).Offset }
+			for _, d := range f.Decls {
+				fd, ok := d.(*ast.FuncDecl)
+				if !ok || fd.Body == nil {
+					continue
+				}
+				parents := map[ast.Node]ast.Node{}
+				var stack []ast.Node
+				ast.Inspect(fd.Body, func(n ast.Node) bool {
+					if n == nil {
+						stack = stack[:len(stack)-1]
+						return true
+					}
+					if len(stack) > 0 {
+						parents[n] = stack[len(stack)-1]
+					}
+					stack = append(stack, n)
+					return true
+				})
+				ast.Inspect(fd.Body, func(n ast.Node) bool {
+					rs, ok := n.(*ast.RangeStmt)
+					if !ok || rs.Tok != token.DEFINE || rs.Value == nil {
+						return true
+					}
+					if k, isID := rs.Key.(*ast.Ident); rs.Key != nil && (!isID || k.Name != "_") {
+						return true
+					}
+					vid, ok := rs.Value.(*ast.Ident)
+					if !ok || vid.Name == "_" {
+						return true
+					}
+					vobj := info.Defs[vid]
+					if vobj == nil || assignsTo(p, rs.Body, vobj) {
+						return true
+					}
+					// the table: a literal, or a local defined once by a literal and never touched
+					var lit *ast.CompositeLit
+					var tableID *ast.Ident
+					switch x := rs.X.(type) {
+					case *ast.CompositeLit:
+						lit = x
+					case *ast.Ident:
+						tobj := info.Uses[x]
+						if tobj == nil {
+							return true
+						}
+						tableID = x
+						nDef := 0
+						touched := false
+						ast.Inspect(fd.Body, func(y ast.Node) bool {
+							switch z := y.(type) {
+							case *ast.AssignStmt:
+								for i, l := range z.Lhs {
+									if id, ok := l.(*ast.Ident); ok && (info.Defs[id] == tobj || info.Uses[id] == tobj) {
+										nDef++
+										if len(z.Lhs) == len(z.Rhs) {
+											if cl, ok := z.Rhs[i].(*ast.CompositeLit); ok && z.Tok == token.DEFINE {
+												lit = cl
+											}
+										}
+									}
+									if ix, ok := l.(*ast.IndexExpr); ok {
+										if id, ok := ix.X.(*ast.Ident); ok && info.Uses[id] == tobj {
+											touched = true
+										}
+									}
+								}
+							case *ast.UnaryExpr:
+								if id, ok := z.X.(*ast.Ident); ok && z.Op == token.AND && info.Uses[id] == tobj {
+									touched = true
+								}
+							case *ast.Ident:
+								// any other use than this range and the definition
+								if info.Uses[z] == tobj && z != x {
+									touched = true
+								}
+							}
+							return true
+						})
+						if nDef != 1 || touched || lit == nil {
+							return true
+						}
+					default:
+						return true
+					}
+					if len(lit.Elts) == 0 || len(lit.Elts) > 6 {
+						return true
+					}
+					ltv, ok := info.Types[lit]
+					if !ok {
+						return true
+					}
+					var elemT types.Type
+					switch t := ltv.Type.Underlying().(type) {
+					case *types.Array:
+						elemT = t.Elem()
+					case *types.Slice:
+						elemT = t.Elem()
+					default:
+						return true
+					}
+					st, ok := elemT.Underlying().(*types.Struct)
+					if !ok {
+						return true
+					}
+					var isPure func(e ast.Expr) bool
+					isPure = func(e ast.Expr) bool {
+						switch x := e.(type) {
+						case *ast.BasicLit, *ast.FuncLit:
+							return true
+						case *ast.Ident:
+							return true
+						case *ast.SelectorExpr:
+							return isPure(x.X)
+						case *ast.ParenExpr:
+							return isPure(x.X)
+						case *ast.UnaryExpr:
+							return x.Op != token.ARROW && isPure(x.X)
+						case *ast.BinaryExpr:
+							return isPure(x.X) && isPure(x.Y)
+						}
+						if tv, ok := info.Types[e]; ok && tv.Value != nil {
+							return true
+						}
+						return false
+					}
+					// per entry: field name → expression
+					var entries []map[string]ast.Expr
+					for _, e := range lit.Elts {
+						cl, ok := e.(*ast.CompositeLit)
+						if !ok {
+							return true
+						}
+						m := map[string]ast.Expr{}
+						for i, fe := range cl.Elts {
+							if kv, ok := fe.(*ast.KeyValueExpr); ok {
+								k, ok := kv.Key.(*ast.Ident)
+								if !ok || !isPure(kv.Value) {
+									return true
+								}
+								m[k.Name] = kv.Value
+								continue
+							}
+							if i >= st.NumFields() || !isPure(fe) {
+								return true
+							}
+							m[st.Field(i).Name()] = fe
+						}
+						entries = append(entries, m)
+					}
+					// body restrictions
+					okBody := true
+					declared := map[string]bool{vid.Name: true}
+					ast.Inspect(rs.Body, func(x ast.Node) bool {
+						switch y := x.(type) {
+						case *ast.BranchStmt:
+							if y.Tok == token.CONTINUE || y.Tok == token.GOTO || y.Label != nil {
+								okBody = false
+							}
+						case *ast.LabeledStmt, *ast.DeferStmt, *ast.GoStmt, *ast.FuncLit:
+							okBody = false
+						case *ast.Ident:
+							if info.Defs[y] != nil {
+								declared[y.Name] = true
+							}
+						}
+						return okBody
+					})
+					for _, stt := range rs.Body.List {
+						if breaksOut(stt) {
+							okBody = false
+						}
+					}
+					if !okBody {
+						return true
+					}
+					// names the entry expressions use must not be redeclared inside the loop
+					for _, m := range entries {
+						for _, e := range m {
+							ast.Inspect(e, func(x ast.Node) bool {
+								if id, ok := x.(*ast.Ident); ok && info.Uses[id] != nil && declared[id.Name] {
+									if _, isVar := info.Uses[id].(*types.Var); isVar {
+										okBody = false
+									}
+								}
+								return okBody
+							})
+						}
+					}
+					if !okBody {
+						return true
+					}
+					// uses of v
+					type use struct {
+						start, end int
+						field      string
+						call       bool
+					}
+					var uses []use
+					bad := false
+					ast.Inspect(rs.Body, func(x ast.Node) bool {
+						if bad {
+							return false
+						}
+						switch y := x.(type) {
+						case *ast.SelectorExpr:
+							if id, ok := y.X.(*ast.Ident); ok && info.Uses[id] == vobj {
+								sel, isSel := info.Selections[y]
+								if !isSel || sel.Kind() != types.FieldVal || len(sel.Index()) != 1 {
+									bad = true
+									return false
+								}
+								u := use{off(y.Pos()), off(y.End()), y.Sel.Name, false}
+								if ce, ok := parents[y].(*ast.CallExpr); ok && ce.Fun == ast.Expr(y) && len(ce.Args) == 0 {
+									u = use{off(ce.Pos()), off(ce.End()), y.Sel.Name, true}
+								}
+								uses = append(uses, u)
+								return false
+							}
+						case *ast.Ident:
+							if info.Uses[y] == vobj {
+								bad = true
+							}
+						}
+						return true
+					})
+					if bad {
+						return true
+					}
+					if src == nil {
+						b, err := read(fname)
+						if err != nil {
+							return false
+						}
+						src = b
+					}
+					text := func(e ast.Expr) string { return string(src[off(e.Pos()):off(e.End())]) }
+					bodyStart, bodyEnd := off(rs.Body.Lbrace), off(rs.Body.Rbrace)+1
+					sort.Slice(uses, func(i, j int) bool { return uses[i].start < uses[j].start })
+					var sb strings.Builder
+					sb.WriteString("{\n")
+					if tableID != nil {
+						sb.WriteString("_ = " + tableID.Name + "\n")
+					}
+					for _, m := range entries {
+						pos := bodyStart
+						for _, u := range uses {
+							e, ok := m[u.field]
+							if !ok {
+								return true // field left at its zero value: not handled
+							}
+							sb.Write(src[pos:u.start])
+							repl := ""
+							if u.call {
+								fl, isFL := e.(*ast.FuncLit)
+								if isFL && fl.Type.Params.NumFields() == 0 && len(fl.Body.List) == 1 {
+									switch s := fl.Body.List[0].(type) {
+									case *ast.ReturnStmt:
+										if len(s.Results) == 1 {
+											repl = "(" + text(s.Results[0]) + ")"
+										}
+									}
+								}
+								if repl == "" {
+									repl = "(" + text(e) + ")()"
+								}
+							} else {
+								repl = "(" + text(e) + ")"
+							}
+							sb.WriteString(repl)
+							pos = u.end
+						}
+						sb.Write(src[pos:bodyEnd])
+						sb.WriteString("\n")
+					}
+					endLine := p.Fset.Position(rs.End()).Line
+					sb.WriteString(fmt.Sprintf("}\n//line %s:%d\n", fname, endLine))
+					edits = append(edits, edit{off(rs.Pos()), off(rs.End()), sb.String()})
+					notes = append(notes, fmt.Sprintf("loop over a table of %d steps at %s analysed unrolled", len(entries), shortPos(p.Fset.Position(rs.Pos()))))
+					return false
+				})
+			}
+			if len(edits) == 0 {
+				continue
+			}
+			sort.Slice(edits, func(i, j int) bool { return edits[i].start > edits[j].start })
+			out := append([]byte{}, src...)
+			for _, e := range edits {
+				out = append(out[:e.start], append([]byte(e.text), out[e.end:]...)...)
+			}
+			overlay[fname] = out
+		}
+	}
+	return overlay, notes
+}
